@@ -73,6 +73,105 @@ func envSeed(def int64) int64 {
 	return def
 }
 
+// ---------------------------------------------------------- external engines
+
+// extEngine is an engine that lives in a separate test binary built with the
+// newer toolchain (testing/synctest); the orchestrator talks to it through
+// environment variables and JSON lines.
+type extEngine struct {
+	name  string
+	bin   string
+	rule  string
+	comps map[string]string
+	assum []string
+}
+
+func (e *extEngine) Name() string { return e.name }
+func (e *extEngine) path() string { return filepath.Join(verifRoot(), "bin", e.bin) }
+func (e *extEngine) Generate(prop string, seed int64, run int) (*k.RunResult, error) {
+	out, err := e.run(map[string]string{"MODE": "worker", "SEED": fmt.Sprint(seed), "FROM": fmt.Sprint(run), "MAX": "1", "KEEP_PLAN": "1", "PROP": prop})
+	if err != nil {
+		return nil, err
+	}
+	for _, l := range bytes.Split(out, []byte("\n")) {
+		var wl workerLine
+		if json.Unmarshal(l, &wl) == nil && wl.Type == "run" {
+			return wl.Result, nil
+		}
+	}
+	return nil, fmt.Errorf("no result from %s", e.bin)
+}
+func (e *extEngine) run(env map[string]string) ([]byte, error) {
+	cmd := exec.Command(e.path(), "-test.run", "^TestWorker$", "-test.timeout", "6h")
+	cmd.Env = append(os.Environ(), "TZ=UTC")
+	for k2, v := range env {
+		cmd.Env = append(cmd.Env, "VERIF_P_"+k2+"="+v)
+	}
+	return cmd.Output()
+}
+func (e *extEngine) Replay(plan *k.Plan, verbose bool) (*k.RunResult, error) {
+	f, err := os.CreateTemp("", "vplan-*.json")
+	if err != nil {
+		return nil, err
+	}
+	defer os.Remove(f.Name())
+	b, _ := json.Marshal(plan)
+	_, _ = f.Write(b)
+	f.Close()
+	env := map[string]string{"MODE": "exec", "PLAN": f.Name(), "PROP": plan.Property}
+	if verbose {
+		env["MODE"] = "replay"
+		env["VERBOSE"] = "1"
+	}
+	out, err := e.run(env)
+	var last *k.RunResult
+	for _, l := range bytes.Split(out, []byte("\n")) {
+		var r k.RunResult
+		if len(l) > 0 && l[0] == '{' && json.Unmarshal(l, &r) == nil && r.EventHash != "" {
+			rr := r
+			last = &rr
+		} else if verbose && len(l) > 0 {
+			fmt.Println(string(l))
+		}
+	}
+	if last == nil {
+		return nil, fmt.Errorf("no result from %s: %v", e.bin, err)
+	}
+	return last, nil
+}
+func (e *extEngine) Samples(prop string, seed int64, n int) []any {
+	var out []any
+	for run := 0; run < 10 && len(out) < n; run++ {
+		r, err := e.Generate(prop, seed, run)
+		if err != nil || r == nil || r.Plan == nil {
+			continue
+		}
+		st := r.Plan.Steps
+		if len(st) > 30 {
+			st = st[:30]
+		}
+		out = append(out, map[string]any{"run": run, "config": r.Plan.Config, "steps": st, "probes": r.Probes})
+	}
+	if len(out) == 0 {
+		out = append(out, "no sample")
+	}
+	return out
+}
+func (e *extEngine) Rule(string) string               { return e.rule }
+func (e *extEngine) Components() map[string]string    { return e.comps }
+func (e *extEngine) Assumptions(string) []string      { return e.assum }
+
+func init() {
+	k.Register(&extEngine{name: "P", bin: "ptest",
+		rule: "Each evaluation is one run inside a testing/synctest bubble: a configuration (connection buffer 1..100, connection limit 1..100, submission queue 1..100, clients that accept bytes freely or only when the scheduler lets them) and 10-50 steps " +
+			"(connect group/id through the production HTTP handler, client goes away, send invoke/resume/notify with or without id to a group, release the worker parked in a completion callback, let a gated client accept bytes, stop) drawn from VERIF_SEED; one event at a time with quiescence (synctest.Wait) in between; " +
+			"while the worker is parked the scheduler may queue submissions and registry events of one kind, so that no select ever has two ready cases. Every completion and every stream is judged against a registry model written from the statement. " +
+			"Non-trivial: a connection was replaced or refused, or a message was refused; distinct = distinct event logs.",
+		comps: map[string]string{"PollWorker.Start loop, registry (add/rmv/get), Process": "real (hook H6)", "PollHandler.ServeHTTP": "real, with in-memory response writers and cancellable contexts", "TCP listener, http.Server": "stub (not started)", "sender worker / kernel": "not part of this engine"},
+		assum: []string{"testing/synctest (go1.26.8) is trusted for quiescence detection", "runs in which a select could have two ready cases are not generated (the pruned outcomes are: connect and disconnect reports queued at the same time)", "the choice among several listeners of a group uses math/rand's global source, seeded per run"},
+	}, "C18")
+}
+
 // ------------------------------------------------------------------- worker
 
 type workerLine struct {
@@ -416,6 +515,10 @@ func cmdCheck(args []string) int {
 				}
 				cmd := exec.Command(self, "worker", "-property", *prop, "-seed", fmt.Sprint(*seed), "-from", fmt.Sprint(from), "-stride", fmt.Sprint(*workers), "-deadline", fmt.Sprint(deadline), "-max", fmt.Sprint(*maxRuns))
 				cmd.Env = append(os.Environ(), "TZ=UTC", "GOMAXPROCS=2")
+				if ext, ok := eng.(*extEngine); ok {
+					cmd = exec.Command(ext.path(), "-test.run", "^TestWorker$", "-test.timeout", "6h")
+					cmd.Env = append(os.Environ(), "TZ=UTC", "GOMAXPROCS=2", "VERIF_P_MODE=worker", "VERIF_P_PROP="+*prop, "VERIF_P_SEED="+fmt.Sprint(*seed), "VERIF_P_FROM="+fmt.Sprint(from), "VERIF_P_STRIDE="+fmt.Sprint(*workers), "VERIF_P_DEADLINE="+fmt.Sprint(deadline), "VERIF_P_MAX="+fmt.Sprint(*maxRuns))
+				}
 				var stderr bytes.Buffer
 				cmd.Stderr = &stderr
 				stdout, err := cmd.StdoutPipe()
@@ -794,6 +897,10 @@ func cmdSelftest(args []string) int {
 					defer wg.Done()
 					cmd := exec.Command(self, "worker", "-verify-replay", "-property", prop, "-seed", fmt.Sprint(*seed), "-from", fmt.Sprint(w), "-stride", "4", "-max", fmt.Sprint(*runs/4))
 					cmd.Env = append(os.Environ(), "TZ=UTC", fmt.Sprintf("GOMAXPROCS=%d", procs))
+					if ext, ok := k.EngineFor(prop).(*extEngine); ok {
+						cmd = exec.Command(ext.path(), "-test.run", "^TestWorker$", "-test.timeout", "6h")
+						cmd.Env = append(os.Environ(), "TZ=UTC", fmt.Sprintf("GOMAXPROCS=%d", procs), "VERIF_P_MODE=worker", "VERIF_P_VERIFY_REPLAY=1", "VERIF_P_PROP="+prop, "VERIF_P_SEED="+fmt.Sprint(*seed), "VERIF_P_FROM="+fmt.Sprint(w), "VERIF_P_STRIDE=4", "VERIF_P_MAX="+fmt.Sprint(*runs/4))
+					}
 					out, _ := cmd.Output()
 					for _, l := range bytes.Split(out, []byte("\n")) {
 						var wl workerLine
